@@ -5,7 +5,7 @@ MICRO = {
 PROPS = {
     'C01': dict(
         micro=['sbuf', 'asm'],
-        modelled="send_buffer.rs SendBuffer (write, poll_transmit, get, ack, retransmit, retransmit_all_for_0rtt, is_fully_acked, has_unsent_data, offset, unacked) with the in-flight frame multiset; range_set/btree_range_set.rs RangeSet (insert, pop_min, min, replace); assembler.rs Assembler (insert, read ordered/unordered, ensure_ordering, clear, bytes_read) as spec with observed choice (chunk boundaries and the stale coverage kept by ordered reads are observed and validated; content, read index, received ranges, buffered coverage are predicted exactly)",
+        modelled="send_buffer.rs SendBuffer (write, poll_transmit, get, ack, retransmit, retransmit_all_for_0rtt, is_fully_acked, has_unsent_data, offset, unacked) with the in-flight frame multiset; range_set/btree_range_set.rs RangeSet (insert, pop_min, min, replace); assembler.rs Assembler (insert, read ordered/unordered, ensure_ordering, clear, bytes_read) as spec with observed choice (chunk boundaries are observed and validated; content, read index, received ranges, live buffered coverage are predicted exactly)",
         not_modelled="BinaryHeap layout, allocation accounting and defragmentation timing of the Assembler (any coverage-preserving re-layout is allowed; TooManyChunks only as an allowed outcome after >1024 pushes); Recv/Send stream state machines, end-of-stream and reset reporting, and the end-to-end composition over the network (DESIGN 5.1 growth items); Bytes refcounting",
     ),
 }
